@@ -24,6 +24,9 @@ def build_behaviours():
     out = []
     for launch, store, bs, ls in itertools.product([False, True], [False, True], [(), ("cdx",), ("cdx", "spdx", "syft")], [(), ("syft",), ("spdx", "cdx")]):
         out.append({"result": "ok", "launch": launch, "store": store, "build_sboms": list(bs), "launch_sboms": list(ls)})
+        if (launch or store) and len(out) % 2:
+            # ... after a layer the buildpack could do without failed to be written (the error is handled inside build)
+            out.append(dict(out[-1], optional_layer=True))
     out.append({"result": "boom-build"})
     out.append({"result": "layer_err"})
     return out
@@ -140,6 +143,8 @@ def prepare(lay, cfg):
             os.makedirs(os.path.join(p, "sub"))
         else:
             os.symlink("/dev/full" if cfg["unwritable"] != "store.toml" else "/nonexistent-vp-dir/store.toml", p)
+    if isinstance(cfg["beh"], dict) and cfg["beh"].get("optional_layer"):
+        os.symlink("/nonexistent-vp-dir/optional.toml", os.path.join(lay.layers, "optional.toml"))
     if isinstance(cfg["beh"], dict) and cfg["beh"].get("result") == "layer_err":
         with open(os.path.join(lay.layers, "blocked"), "w") as f:
             f.write("a file where a layer directory should go")
@@ -339,6 +344,10 @@ def run_cfg(lay, cfg, idx, seed, sh):
             return
     if status == 0 or not exp["reach"] or exp["status"] == "hundred":
         extra = sorted(changed - allowed)
+        if isinstance(cfg["beh"], dict) and cfg["beh"].get("optional_layer"):
+            # (the layer the build code itself asked for and could not complete: its directory is the build code's doing, not an output)
+            extra = [k for k in extra if k != b"layers/optional" and not k.startswith(b"layers/optional/")]
+            sh.count("builds_that_handled_a_failed_layer_write_before_returning")
         if extra:
             sh.violation("unprovided-output-touched", "%s (exit %d): files created or modified although no such output was provided: %s"
                          % (what, status, vp.snap_diff({k: pre.get(k) for k in extra}, {k: post.get(k) for k in extra})), case)
